@@ -3252,8 +3252,11 @@ class StateRetainer:
         ``backUp()`` or ``restoreBackup()``.
         """
         paramDefs = set()
+        # iterChildrenWithMaterials gives the materials of the descendants only: a scope opened
+        # on a component has to include that component's own material
+        ownMaterial = getattr(self.composite, "material", None)
         items = itertools.chain(
-            (self.composite,),
+            (self.composite,) if ownMaterial is None else (self.composite, ownMaterial),
             self.composite.iterChildrenWithMaterials(deep=True),
         )
         for child in items:
